@@ -140,6 +140,20 @@ pub fn bad_loop_no_progress(limit: u64, f: &dyn Fn(u64) -> u64) -> u64 {
     0
 }
 
+/// a counter is incremented, but the only exit is a floating-point comparison that need not ever hold
+pub fn bad_float_exit_loop(p: f64) -> u64 {
+    let mut acc = 0.0;
+    let mut n = 0;
+    loop {
+        acc += p / (n as f64 + 1.0);
+        if acc >= 1.0 {
+            break;
+        }
+        n += 1;
+    }
+    n
+}
+
 pub fn good_loop_progress(limit: u64, f: &dyn Fn(u64) -> u64) -> u64 {
     let mut x = 1;
     while x <= limit {
